@@ -15,8 +15,10 @@ The seeded changes measure detection. To measure the other side — *never raise
 sub-agents (property text + worktree only) were each asked for three realistic **behaviour-preserving** refactorings of the code their
 property is anchored in (extract / inline a helper, loop <-> iterator chain, `match` <-> `if let` / `let else`, merged match arms, local
 closures, code motion). Each agent compared the tool's outputs byte for byte before and after on hundreds to thousands of runs (shipped examples
-under all flag combinations plus hand-written and random inputs); I re-ran the pinned tests. The %d patches are kept in `probes/<id>/` and
-are negative controls (`R-<id>`) of the self-test.
+under all flag combinations plus hand-written and random inputs); I re-ran the pinned tests. Two more probes (`X00-1`, `X00-2`) are mine: they
+only *rename* locals and parameters across the files the rules read (13 rules looked locals up by name; they now find them by role - the
+argument of a call, the field of a struct literal, the parameter position). The %d patches are kept in `probes/<id>/` and are negative
+controls (`R-<id>`) of the self-test.
 
 **First runs: 28 of the first 30 refactorings, 12 of the next 15 (C10, C11, C14, C17, C20) and 12 of the last 15 (C12, C15, C16, C18, C19) made at
 least one check fail** (almost all as template mismatches or fail-closed analysis gaps). That
